@@ -226,8 +226,20 @@ pub fn main(o: &Opts) -> Result<i32, String> {
                 no_names += 1;
                 continue;
             }
+            // spelling variants of one class (the name table marks them: hfs before / after the psk modifiers) are
+            // taken in turn, so that every variant is used for every class
+            let nvar = cands.iter().filter_map(|n| n["variant"].as_u64()).max().map(|m| m as usize + 1).unwrap_or(1);
             let picks: Vec<&Value> = if per_scn == 0 || per_scn >= cands.len() {
                 cands.clone()
+            } else if nvar > 1 {
+                let start = rng.below(cands.len() as u64) as usize;
+                (0..per_scn)
+                    .map(|k| {
+                        let want = ((si + k) % nvar) as u64;
+                        let grp: Vec<&Value> = cands.iter().copied().filter(|n| n["variant"].as_u64().unwrap_or(0) == want).collect();
+                        if grp.is_empty() { cands[(start + k) % cands.len()] } else { grp[(start + k * 5) % grp.len()] }
+                    })
+                    .collect()
             } else {
                 // rotate through the class so that all primitive sets get used across scenarios
                 let start = rng.below(cands.len() as u64) as usize;
